@@ -6,6 +6,7 @@ import (
 	"go/token"
 	"go/types"
 	"sort"
+	"strings"
 
 	"bngvc/smt"
 )
@@ -163,8 +164,38 @@ func (fv *funcVerifier) havocLoop(st *State, mi *modInfo) {
 }
 
 type candidate struct {
-	desc string
-	eval func(st *State) smt.Term
+	desc     string
+	eval     func(st *State) smt.Term
+	assumeAt func(st *State) // optional: how to assume the candidate at the loop head
+	frame    bool
+}
+
+// frameFact records that array fresh agrees with array old on refs 0..f0 whenever guard holds.
+type frameFact struct {
+	key        string
+	fresh, old smt.Term
+	f0, guard  smt.Term
+}
+
+// instFrames adds the ground instances of the recorded frame facts for a read
+// of heap key at reference r.
+func (fv *funcVerifier) instFrames(key string, r smt.Term) {
+	if len(fv.frameFacts) == 0 {
+		return
+	}
+	mk := key + "@" + r.S
+	if fv.frameInst[mk] >= len(fv.frameFacts) {
+		return
+	}
+	start := fv.frameInst[mk]
+	fv.frameInst[mk] = len(fv.frameFacts)
+	for _, f := range fv.frameFacts[start:] {
+		if f.key != key {
+			continue
+		}
+		fv.assumeGlobal(smt.Implies(smt.And(f.guard, smt.Ge(r, smt.IntLit(0)), smt.Le(r, f.f0)),
+			smt.Eq(smt.Select(f.fresh, r), smt.Select(f.old, r))))
+	}
 }
 
 // loopCandidates proposes auto-invariants for the safety sweep.
@@ -187,20 +218,20 @@ func (fv *funcVerifier) loopCandidates(st *State, mi *modInfo) []candidate {
 	for _, v := range ints {
 		v := v
 		entry := st.vars[v]
-		cands = append(cands, candidate{v.Name() + " >= 0", func(s *State) smt.Term { return smt.Ge(s.vars[v], smt.IntLit(0)) }})
-		cands = append(cands, candidate{v.Name() + " >= entry(" + v.Name() + ")", func(s *State) smt.Term { return smt.Ge(s.vars[v], entry) }})
-		cands = append(cands, candidate{v.Name() + " <= entry(" + v.Name() + ")", func(s *State) smt.Term { return smt.Le(s.vars[v], entry) }})
+		cands = append(cands, candidate{desc: v.Name() + " >= 0", eval: func(s *State) smt.Term { return smt.Ge(s.vars[v], smt.IntLit(0)) }})
+		cands = append(cands, candidate{desc: v.Name() + " >= entry(" + v.Name() + ")", eval: func(s *State) smt.Term { return smt.Ge(s.vars[v], entry) }})
+		cands = append(cands, candidate{desc: v.Name() + " <= entry(" + v.Name() + ")", eval: func(s *State) smt.Term { return smt.Le(s.vars[v], entry) }})
 		for _, o := range others {
 			o := o
 			ot := st.vars[o]
 			switch o.Type().Underlying().(type) {
 			case *types.Slice:
-				cands = append(cands, candidate{v.Name() + " <= len(" + o.Name() + ")", func(s *State) smt.Term { return smt.Le(s.vars[v], slLen(ot)) }})
+				cands = append(cands, candidate{desc: v.Name() + " <= len(" + o.Name() + ")", eval: func(s *State) smt.Term { return smt.Le(s.vars[v], slLen(ot)) }})
 			case *types.Basic:
 				if isString(o.Type()) {
-					cands = append(cands, candidate{v.Name() + " <= len(" + o.Name() + ")", func(s *State) smt.Term { return smt.Le(s.vars[v], smt.App(smt.Int, "str_len", ot)) }})
+					cands = append(cands, candidate{desc: v.Name() + " <= len(" + o.Name() + ")", eval: func(s *State) smt.Term { return smt.Le(s.vars[v], smt.App(smt.Int, "str_len", ot)) }})
 				} else if isInteger(o.Type()) {
-					cands = append(cands, candidate{v.Name() + " <= " + o.Name(), func(s *State) smt.Term { return smt.Le(s.vars[v], ot) }})
+					cands = append(cands, candidate{desc: v.Name() + " <= " + o.Name(), eval: func(s *State) smt.Term { return smt.Le(s.vars[v], ot) }})
 				}
 			}
 		}
@@ -213,26 +244,65 @@ func (fv *funcVerifier) loopCandidates(st *State, mi *modInfo) []candidate {
 		}
 		if _, isSl := v.Type().Underlying().(*types.Slice); isSl {
 			entry := st.vars[v]
-			cands = append(cands, candidate{"len(" + v.Name() + ") <= entry", func(s *State) smt.Term { return smt.Le(slLen(s.vars[v]), slLen(entry)) }})
-			cands = append(cands, candidate{"len(" + v.Name() + ") >= entry", func(s *State) smt.Term { return smt.Ge(slLen(s.vars[v]), slLen(entry)) }})
+			cands = append(cands, candidate{desc: "len(" + v.Name() + ") <= entry", eval: func(s *State) smt.Term { return smt.Le(slLen(s.vars[v]), slLen(entry)) }})
+			cands = append(cands, candidate{desc: "len(" + v.Name() + ") >= entry", eval: func(s *State) smt.Term { return smt.Ge(slLen(s.vars[v]), slLen(entry)) }})
 		}
 	}
 	sort.SliceStable(cands, func(i, j int) bool { return cands[i].desc < cands[j].desc })
 	if len(cands) > 40 {
 		cands = cands[:40]
 	}
+	// frame candidates: objects that existed at loop entry keep their contents
+	if mi.heapAll {
+		pre := st.clone()
+		f0 := pre.frontier
+		var keys []string
+		for k := range fv.heapSorts {
+			keys = append(keys, k)
+		}
+		sort.Strings(keys)
+		for _, k := range keys {
+			k := k
+			if !strings.HasPrefix(fv.heapSorts[k], "(Array Int ") {
+				continue
+			}
+			goal := func(s *State) smt.Term {
+				r := smt.Term{S: "fr_r", Sort: smt.Int}
+				return smt.Forall([]smt.Term{r}, smt.Implies(smt.And(smt.Ge(r, smt.IntLit(0)), smt.Le(r, f0)),
+					smt.Eq(smt.Select(fv.heapGet(s, k), r), smt.Select(fv.heapGet(pre, k), r))))
+			}
+			cands = append(cands, candidate{desc: "frame " + k, eval: goal, frame: true, assumeAt: func(s *State) {
+				fresh := fv.heapGet(s, k)
+				old := fv.heapGet(pre, k)
+				fv.frameFacts = append(fv.frameFacts, frameFact{k, fresh, old, f0, s.live})
+				fv.frameAxioms = append(fv.frameAxioms, smt.Implies(s.live, goal(s)))
+			}})
+		}
+		var sls []*types.Var
+		for v := range mi.vars {
+			if _, ok := st.vars[v]; ok && !fv.boxed[v] && !fv.volatile[v] {
+				if _, isSl := v.Type().Underlying().(*types.Slice); isSl {
+					sls = append(sls, v)
+				}
+			}
+		}
+		sort.Slice(sls, func(i, j int) bool { return sls[i].Pos() < sls[j].Pos() })
+		for _, v := range sls {
+			v := v
+			entry := st.vars[v]
+			cands = append(cands, candidate{desc: "fresh-or-entry " + v.Name(), eval: func(s *State) smt.Term {
+				return smt.Or(smt.Eq(slArr(s.vars[v]), smt.IntLit(0)), smt.Gt(slArr(s.vars[v]), f0), smt.Eq(slArr(s.vars[v]), slArr(entry)))
+			}})
+			cands = append(cands, candidate{desc: "fresh-or-nil " + v.Name(), eval: func(s *State) smt.Term {
+				return smt.Or(smt.Eq(slArr(s.vars[v]), smt.IntLit(0)), smt.Gt(slArr(s.vars[v]), f0))
+			}})
+		}
+	}
 	return cands
 }
 
-func (fv *funcVerifier) candEnabled(key string, i int) bool {
-	if !fv.opt.Sweep {
-		return false
-	}
-	en, ok := fv.opt.Candidates[key]
-	if !ok || i >= len(en) {
-		return true
-	}
-	return en[i]
+func (fv *funcVerifier) candEnabled(key string, c candidate) bool {
+	return !fv.opt.Disabled[key][c.desc]
 }
 
 // autoVariant derives a termination measure from the loop condition.
@@ -299,7 +369,7 @@ func (fv *funcVerifier) execFor(st *State, x *ast.ForStmt, label string) {
 	pre := st.clone()
 
 	cands := []candidate{}
-	if fv.opt.Sweep {
+	if fv.opt.Sweep || fv.opt.AutoInv {
 		cands = fv.loopCandidates(st, mi)
 		var descs []string
 		for _, c := range cands {
@@ -310,19 +380,23 @@ func (fv *funcVerifier) execFor(st *State, x *ast.ForStmt, label string) {
 	// init obligations
 	fv.assertLoopInvs(st, spec, pre, "loopinv.init", key, x.Pos())
 	for i, c := range cands {
-		if fv.candEnabled(key, i) {
+		if fv.candEnabled(key, c) {
 			o := fv.assertNoAssume(st, "cand.init", key+":"+c.desc, x.Pos(), c.eval(st))
 			if o != nil {
-				o.Cand, o.CandLoop = i, key
+				o.Cand, o.CandLoop, o.CandDesc, o.Frame = i, key, c.desc, c.frame
 			}
 		}
 	}
 	// arbitrary iteration
 	fv.havocLoop(st, mi)
 	fv.assumeLoopInvs(st, spec, pre)
-	for i, c := range cands {
-		if fv.candEnabled(key, i) {
-			fv.assume(st, c.eval(st))
+	for _, c := range cands {
+		if fv.candEnabled(key, c) {
+			if c.assumeAt != nil {
+				c.assumeAt(st)
+			} else {
+				fv.assume(st, c.eval(st))
+			}
 		}
 	}
 	var variant func(*State) smt.Term
@@ -353,14 +427,14 @@ func (fv *funcVerifier) execFor(st *State, x *ast.ForStmt, label string) {
 	if !body.dead() {
 		fv.assertLoopInvs(body, spec, pre, "loopinv.step", key, x.Pos())
 		for i, c := range cands {
-			if fv.candEnabled(key, i) {
+			if fv.candEnabled(key, c) {
 				o := fv.assertNoAssume(body, "cand.step", key+":"+c.desc, x.Pos(), c.eval(body))
 				if o != nil {
-					o.Cand, o.CandLoop = i, key
+					o.Cand, o.CandLoop, o.CandDesc, o.Frame = i, key, c.desc, c.frame
 				}
 			}
 		}
-		if fv.opt.Variants || (spec != nil && spec.Decreases != nil) {
+		if (fv.opt.Variants && !fv.opt.ServiceLoops[key]) || (spec != nil && spec.Decreases != nil) {
 			if variant == nil {
 				if x.Cond == nil && len(frame.breaks) == 0 && !fv.hasReturn(x.Body) {
 					// for {} with no exit is an intentional service loop; not a packet handler
@@ -397,7 +471,7 @@ func (fv *funcVerifier) assertNoAssume(st *State, kind, desc string, pos token.P
 		return nil
 	}
 	o := &Oblig{ID: fv.oblID(kind, desc), Kind: kind, Func: fv.fi.Key, Desc: desc, nAssume: len(fv.assumptions),
-		pc: st.live, goal: goal, fv: fv, Inputs: fv.inputs, Cand: -1}
+		pc: st.live, goal: goal, fv: fv, Inputs: fv.inputs, Cand: -1, nFrameAx: len(fv.frameAxioms)}
 	if pos.IsValid() {
 		o.Pos = fv.prog.Pos(pos)
 	}
@@ -511,7 +585,7 @@ func (fv *funcVerifier) execRange(st *State, x *ast.RangeStmt, label string) {
 		delete(mi.vars, valVar)
 	}
 	cands := []candidate{}
-	if fv.opt.Sweep {
+	if fv.opt.Sweep || fv.opt.AutoInv {
 		cands = fv.loopCandidates(st, mi)
 		var descs []string
 		for _, c := range cands {
@@ -537,9 +611,9 @@ func (fv *funcVerifier) execRange(st *State, x *ast.RangeStmt, label string) {
 	}
 	fv.assertLoopInvs(st, spec, pre, "loopinv.init", key, x.Pos())
 	for i, c := range cands {
-		if fv.candEnabled(key, i) {
+		if fv.candEnabled(key, c) {
 			if o := fv.assertNoAssume(st, "cand.init", key+":"+c.desc, x.Pos(), c.eval(st)); o != nil {
-				o.Cand, o.CandLoop = i, key
+				o.Cand, o.CandLoop, o.CandDesc, o.Frame = i, key, c.desc, c.frame
 			}
 		}
 	}
@@ -554,9 +628,13 @@ func (fv *funcVerifier) execRange(st *State, x *ast.RangeStmt, label string) {
 		bindIdx(st, idx)
 	}
 	fv.assumeLoopInvs(st, spec, pre)
-	for i, c := range cands {
-		if fv.candEnabled(key, i) {
-			fv.assume(st, c.eval(st))
+	for _, c := range cands {
+		if fv.candEnabled(key, c) {
+			if c.assumeAt != nil {
+				c.assumeAt(st)
+			} else {
+				fv.assume(st, c.eval(st))
+			}
 		}
 	}
 	exit := st.clone()
@@ -600,9 +678,9 @@ func (fv *funcVerifier) execRange(st *State, x *ast.RangeStmt, label string) {
 		}
 		fv.assertLoopInvs(body, spec, pre, "loopinv.step", key, x.Pos())
 		for i, c := range cands {
-			if fv.candEnabled(key, i) {
+			if fv.candEnabled(key, c) {
 				if o := fv.assertNoAssume(body, "cand.step", key+":"+c.desc, x.Pos(), c.eval(body)); o != nil {
-					o.Cand, o.CandLoop = i, key
+					o.Cand, o.CandLoop, o.CandDesc, o.Frame = i, key, c.desc, c.frame
 				}
 			}
 		}
